@@ -13,6 +13,7 @@ import (
 	"strings"
 	"sync"
 	"sync/atomic"
+	"time"
 
 	"go.pennock.tech/tabular"
 	"go.pennock.tech/tabular/auto"
@@ -150,6 +151,33 @@ func c16Formats() []c16Format {
 	yielding("markdown", func(t tabular.Table, w io.Writer) error { return markdown.Wrap(t).RenderTo(w) })
 	yielding("html", func(t tabular.Table, w io.Writer) error { return html.Wrap(t).RenderTo(w) })
 	yielding("text", func(t tabular.Table, w io.Writer) error { return texttable.Wrap(t).RenderTo(w) })
+	// wrappers the goroutine holds BY VALUE (a copy of what Wrap returned, the original dropped - a struct field, a slice
+	// element): the copy is rendered several times while everybody else wraps and renders
+	fs = append(fs, c16Format{"text:through-a-by-value-copy-of-a-wrapper-rendered-3-times", func(t tabular.Table, g int) (string, error) {
+		tv := *texttable.Wrap(t)
+		var out string
+		var err error
+		for k := 0; k < 3; k++ {
+			runtime.Gosched()
+			o, e := tv.Render()
+			if k > 0 && (o != out || (e != nil) != (err != nil)) {
+				return "render " + fmt.Sprint(k+1) + " through the same by-value wrapper differs from the first: " + o, e
+			}
+			out, err = o, e
+		}
+		return out, err
+	}})
+	fs = append(fs, c16Format{"html:through-a-by-value-copy-of-a-wrapper-rendered-twice", func(t tabular.Table, g int) (string, error) {
+		hv := *html.Wrap(t)
+		hv.Caption = "by value"
+		a, err := hv.Render()
+		if err != nil {
+			return "", err
+		}
+		runtime.Gosched()
+		b, err := hv.Render()
+		return a + b, err
+	}})
 	// ... and into destinations of the types real programs hand over, every goroutine its own: a regular *os.File
 	// for all of them at once, and one whose type rotates with the goroutine (buffers, builders, pipes, files
 	// opened for appending, a bufio.Writer); whatever a renderer does for a particular kind of destination, it does
@@ -303,6 +331,24 @@ func c16Run(c *Ctx, i int, r *gen.R) {
 			}
 		}(k)
 	}
+	// a third background goroutine keeps the garbage collector running (and finalizers with it) in every other
+	// batch: object lifetime is part of the schedule
+	var gcRuns int64
+	if i%2 == 1 {
+		go func() {
+			<-start
+			for {
+				select {
+				case <-stop:
+					return
+				default:
+				}
+				runtime.GC()
+				atomic.AddInt64(&gcRuns, 1)
+				time.Sleep(200 * time.Microsecond)
+			}
+		}()
+	}
 	for g := range jobs {
 		wg.Add(1)
 		go func(g int) {
@@ -336,6 +382,7 @@ func c16Run(c *Ctx, i int, r *gen.R) {
 	c.Rec.Count("goroutines_run", int64(G))
 	c.Rec.Count("concurrent_renders", int64(G*len(formats)))
 	c.Rec.Count("registry_reads_by_background_goroutines", atomic.LoadInt64(&readerOps))
+	c.Rec.Count("garbage_collections_forced_by_a_background_goroutine_during_batches", atomic.LoadInt64(&gcRuns))
 	c.Rec.Max("max:goroutines_in_one_batch", int64(G))
 	c.Rec.Eval(gen.Hash64(fmt.Sprint(completion), fmt.Sprint(G, i)), true)
 	for g := range jobs {
@@ -601,7 +648,7 @@ func init() {
 		Level:  "exploration",
 		Race:   true,
 		Shards: raceShards,
-		Rule: "built with -race; shards run at GOMAXPROCS = all cores, 2, 4, 1. One case = one barrier-released batch of G goroutines (G cycles through 2, 8, 16, 32, 64), each owning a random table spec (as in C10, with alignments and occasional size-declaring items) which it builds and renders in all 30 formats (csv, json, markdown, html twice through one wrapper with caption/generator/context, auto markdown, text under the six built-in decorations, auto utf8-double, text under a decoration of the goroutine's own completed by Populate() inside the goroutine, and json/csv/markdown/html/text through RenderTo into a writer that yields the processor on every Write - the caller's writer is the library's one suspension point -, and text/csv/json/markdown/html/auto text through RenderTo into a regular *os.File of its own and into a destination whose dynamic type rotates with the goroutine: buffers, builders, pipes, files opened for appending, a 16-byte bufio.Writer) in a goroutine-specific order - half of the goroutines on one table of their own for all renders (so that state accumulates on it), the others on a freshly built table per render -, with property traffic on its own table, column 0 and first cell before every render (three keys in rotating order, read back after the render and compared like the output); two thirds of the tables also take a row of by-value copies of up to 7 cells the parent prepared once per batch (values of common provenance: each table owns its copies), and the same cells as items; in the first 32 batches of a process every table also holds an item of a dynamic type the process has not seen before (size-declaring, with a String method that yields), so that all goroutines meet the type for the first time at once; a sixth of the tables hold an item the JSON encoder refuses, so that renders fail part-way during the batch; while 2 background goroutines read RegisteredDecorationNames/Named/auto.ListStyles in a loop. After the batch the same specs are built and rendered alone to obtain reference bytes (afterwards, so that grow-only process-wide state is first touched concurrently); 1/25 of the cells are 81-400 characters wide; every concurrent output must equal its reference. phase 1: N = 65, 70, 100, 130, 200 or 257 goroutines each render a table of their own (one format for the whole batch, or six formats mixed) into a writer whose first Write blocks until all N renders have got that far, so that N renders are in flight at the same instant; no panic, and every output equals the same table rendered alone. " +
+		Rule: "built with -race; shards run at GOMAXPROCS = all cores, 2, 4, 1. One case = one barrier-released batch of G goroutines (G cycles through 2, 8, 16, 32, 64), each owning a random table spec (as in C10, with alignments and occasional size-declaring items) which it builds and renders in all 32 formats (csv, json, markdown, html twice through one wrapper with caption/generator/context, auto markdown, text under the six built-in decorations, auto utf8-double, text under a decoration of the goroutine's own completed by Populate() inside the goroutine, and json/csv/markdown/html/text through RenderTo into a writer that yields the processor on every Write - the caller's writer is the library's one suspension point -, and text/csv/json/markdown/html/auto text through RenderTo into a regular *os.File of its own and into a destination whose dynamic type rotates with the goroutine: buffers, builders, pipes, files opened for appending, a 16-byte bufio.Writer) in a goroutine-specific order - half of the goroutines on one table of their own for all renders (so that state accumulates on it), the others on a freshly built table per render -, with property traffic on its own table, column 0 and first cell before every render (three keys in rotating order, read back after the render and compared like the output); two thirds of the tables also take a row of by-value copies of up to 7 cells the parent prepared once per batch (values of common provenance: each table owns its copies), and the same cells as items; in the first 32 batches of a process every table also holds an item of a dynamic type the process has not seen before (size-declaring, with a String method that yields), so that all goroutines meet the type for the first time at once; a sixth of the tables hold an item the JSON encoder refuses, so that renders fail part-way during the batch; text three times and html twice through by-value copies of wrappers; while 2 background goroutines read RegisteredDecorationNames/Named/auto.ListStyles in a loop and, in every other batch, a third forces garbage collections. After the batch the same specs are built and rendered alone to obtain reference bytes (afterwards, so that grow-only process-wide state is first touched concurrently); 1/25 of the cells are 81-400 characters wide; every concurrent output must equal its reference. phase 1: N = 65, 70, 100, 130, 200 or 257 goroutines each render a table of their own (one format for the whole batch, or six formats mixed) into a writer whose first Write blocks until all N renders have got that far, so that N renders are in flight at the same instant; no panic, and every output equals the same table rendered alone. " +
 			"distinct_nontrivial counts distinct interleaving signatures (global completion order of the renders by goroutine id). The race detector's log is parsed by the parent; every report with a tabular frame is a violation; a fatal runtime error in the child is a violation.",
 		Assumptions: []string{
 			"each goroutine owns its tables and wrappers; sharing one table or wrapper between goroutines is out of scope (documented as unsupported for HTMLTable with a generator context)",
